@@ -4,7 +4,7 @@
    assumptions; statistical tests in the thorough tier support them.  Proved: for every accepted draw the pair is valid; for a fixed g1 the map g2 -> partner is exactly
    two-to-one onto the anticommuting strings (so uniform raw bits give a uniform partner); EXACT uniformity of random_clifford on the symplectic groups for N = 1 (6 matrices,
    12 draws) and N = 2 (720 = |Sp(4,2)| matrices, 2880 draws) by complete enumeration; the N = 2 sampler entangles. *)
-From PC Require Import Model.Base Model.Pauli Model.CMap Model.Diag Model.Random Proofs.RandomFacts Proofs.UniformFacts Proofs.DiagFacts.
+From PC Require Import Model.Base Model.Pauli Model.CMap Model.Diag Model.Random Proofs.RandomFacts Proofs.UniformFacts Proofs.DiagFacts Proofs.RandomCliffordFacts.
 
 Theorem C16_pair_anticommutes : forall g1 g2, length g2 = length g1 -> is_id_str g1 = false -> acq g1 (snd (fix_pair g1 g2)) = 1.
 Proof. exact fix_pair_anticommute. Qed.
@@ -50,3 +50,16 @@ Print Assumptions C16_entangles.
 Theorem C16_random_pauli_shape : forall pairs, length (random_pauli_from pairs) = (2 * length pairs)%nat.
 Proof. exact random_pauli_rows. Qed.
 Print Assumptions C16_random_pauli_shape.
+(* validity for EVERY N and every accepted draw sequence: the sampled table satisfies the canonical commutation relations, and its first two rows are the drawn pair *)
+Theorem C16_random_clifford_symplectic_all_N : forall n pairs i j, (1 <= n)%nat -> pairs_ok n pairs -> (i < 2 * n)%nat -> (j < 2 * n)%nat ->
+  acq (nth i (random_clifford_from n pairs) []) (nth j (random_clifford_from n pairs) []) = expected_acq i j.
+Proof. exact random_clifford_symplectic. Qed.
+Print Assumptions C16_random_clifford_symplectic_all_N.
+Theorem C16_random_clifford_shape : forall n pairs, (1 <= n)%nat -> pairs_ok n pairs ->
+  length (random_clifford_from n pairs) = (2 * n)%nat /\ Forall (fun r => length r = n) (random_clifford_from n pairs).
+Proof. exact random_clifford_shape. Qed.
+Print Assumptions C16_random_clifford_shape.
+Theorem C16_random_clifford_keeps_the_drawn_pair : forall n g1 g2 rest, (1 <= n)%nat -> pairs_ok n ((g1, g2) :: rest) ->
+  nth 0 (random_clifford_from n ((g1, g2) :: rest)) [] = g1 /\ nth 1 (random_clifford_from n ((g1, g2) :: rest)) [] = g2.
+Proof. exact random_clifford_first_pair. Qed.
+Print Assumptions C16_random_clifford_keeps_the_drawn_pair.
